@@ -17,20 +17,90 @@ import (
 
 // ---------- Gallina literals of the C18 case language ----------
 
+// bz renders a byte string as `(zs [x5f; x4b; ...])` (ManifestCases.zs over the
+// constructors of Coq's Byte.byte): coqc elaborates a list of constructor
+// references several times faster than a list of Z numerals, and elaboration of
+// the literals is what a shard's time goes into.
+func bz(v []byte) string {
+	if len(v) == 0 {
+		return "[]"
+	}
+	var sb strings.Builder
+	sb.Grow(5*len(v) + 8)
+	sb.WriteString("(zs [")
+	for i, x := range v {
+		if i > 0 {
+			sb.WriteString("; ")
+		}
+		fmt.Fprintf(&sb, "x%02x", x)
+	}
+	sb.WriteString("])")
+	return sb.String()
+}
+
+func bzStr(s string) string { return bz([]byte(s)) }
+
+// pool shares byte strings inside ONE case literal: a file, its re-serialisation
+// and the prefixes of both that the verify table holds are written once
+// (`let b0 := zs [...] in`) and referred to by name or as `(firstn n b0)`.
+type pool struct {
+	bases [][]byte
+}
+
+func (p *pool) ref(b []byte) string {
+	if len(b) < 24 {
+		return bz(b)
+	}
+	for i, base := range p.bases {
+		if len(b) <= len(base) && bytesEq(base[:len(b)], b) {
+			if len(b) == len(base) {
+				return fmt.Sprintf("b%d", i)
+			}
+			return fmt.Sprintf("(firstn %d%%nat b%d)", len(b), i)
+		}
+	}
+	p.bases = append(p.bases, b)
+	return fmt.Sprintf("b%d", len(p.bases)-1)
+}
+
+// wrap closes the case literal `body` under the pool's let-bindings.
+func (p *pool) wrap(body string) string {
+	if len(p.bases) == 0 {
+		return body
+	}
+	var sb strings.Builder
+	sb.WriteString("(")
+	for i, b := range p.bases {
+		fmt.Fprintf(&sb, "let b%d := %s in ", i, bz(b))
+	}
+	sb.WriteString(body)
+	sb.WriteString(")")
+	return sb.String()
+}
+
+func bytesEq(a, b []byte) bool { return string(a) == string(b) }
+
 type pman struct {
 	ser                          []byte
 	keysig, pmse, pmseks, pkhash int
 }
 
-func (p pman) lit() string {
-	return fmt.Sprintf("(mk_pman %s %d %d %d %d)", gal.Bytes(p.ser), p.keysig, p.pmse, p.pmseks, p.pkhash)
+func (p pman) lit() string { return p.litIn(nil) }
+
+// litIn: the serialisation goes through the pool (only valid inside pool.wrap)
+func (p pman) litIn(pl *pool) string {
+	ser := bz(p.ser)
+	if pl != nil && len(p.ser) > 0 {
+		ser = pl.ref(p.ser)
+	}
+	return fmt.Sprintf("(mk_pman %s %d %d %d %d)", ser, p.keysig, p.pmse, p.pmseks, p.pkhash)
 }
 
-func optPman(p *pman) string {
+func optPman(p *pman, pl *pool) string {
 	if p == nil {
 		return "None"
 	}
-	return "(Some " + p.lit() + ")"
+	return "(Some " + p.litIn(pl) + ")"
 }
 
 type vtEntry struct {
@@ -38,10 +108,10 @@ type vtEntry struct {
 	ok  bool
 }
 
-func vtLit(vt []vtEntry) string {
+func vtLit(vt []vtEntry, pl *pool) string {
 	s := make([]string, len(vt))
 	for i, e := range vt {
-		s[i] = gal.Pair(gal.Bytes(e.msg), gal.Bool(e.ok))
+		s[i] = gal.Pair(pl.ref(e.msg), gal.Bool(e.ok))
 	}
 	return gal.List(s)
 }
@@ -81,7 +151,7 @@ type hashEntry struct {
 func htLit(ht []hashEntry) string {
 	s := make([]string, len(ht))
 	for i, e := range ht {
-		s[i] = fmt.Sprintf("(%d, %s, %s)", e.alg, gal.Bytes(e.msg), gal.Bytes(e.d))
+		s[i] = fmt.Sprintf("(%d, %s, %s)", e.alg, bz(e.msg), bz(e.d))
 	}
 	return gal.List(s)
 }
